@@ -74,17 +74,26 @@ def run(ctx):
               if store_field(ctx.facts, t, aliases) in ("private.values", "self.default") and not isinstance(n.ast, ast.Delete)]
     disp = [n for n in cfg.live_nodes() for c in calls_in(n) if isinstance(c.func, ast.Attribute) and c.func.attr == "_call_watcher"]
     ctx.require(disp and stores, "dispatch or store sites of Parameter.__set__ not found")
-    ident = [n for n in cfg.live_nodes() if n.kind == "br" and isinstance(n.ast, ast.Compare) and isinstance(n.ast.ops[0], (ast.Is, ast.IsNot))
-             and "val" in norm(n.ast) and ((isinstance(n.ast.ops[0], ast.IsNot) and n.polarity is False) or (isinstance(n.ast.ops[0], ast.Is) and n.polarity is True))]
-    stop_ids = {n.id for n in stores} | {n.id for n in ident}
+    # path conditions over the atoms that decide the store-free route (enumerated valuations, engine/pathcond.py): a dispatch
+    # may be reached without a store only when the assigned object is the very object already held (`val is <current>`)
+    from engine import pathcond
+    atoms = sorted({a for n in cfg.live_nodes() if n.kind == "br" and n.ast is not None for a in pathcond.atoms_in(n.ast)
+                    if a.startswith("val is ") or a in ("self.constant", "self.readonly", "obj is None", "obj._param__private.initialized")})
+    if len(atoms) > 12:
+        raise AnalysisError("R03.a: too many path atoms in Parameter.__set__ (%d)" % len(atoms))
+    ident_atoms = [i for i, a in enumerate(atoms) if a.startswith("val is ") and a != "val is None" and a != "val is Undefined"]
+    store_ids = {n.id for n in stores}
+    state = pathcond.reaching(cfg, atoms, stop=lambda n: n.id in store_ids)
     for d in disp:
-        reach = cfg.reachable_from([cfg.entry], stop=lambda n: n.id in stop_ids)
-        if any(r is d for r in reach):
-            p = cfg.path(cfg.entry, d, avoid=lambda n: n.id in stop_ids) or [d]
-            ctx.fail("R03.a", f, d, "watchers can be dispatched on a path that has not stored the new value yet: the callback sees the old value on the object",
+        vals = state.get(d.id, set())
+        loose = [v for v in vals if not any(v[i] for i in ident_atoms)]
+        if loose:
+            p = cfg.path(cfg.entry, d, avoid=lambda n: n.id in store_ids) or [d]
+            ctx.fail("R03.a", f, d, "watchers can be dispatched on a path that has not stored the new value yet: the callback sees the old value on the object "
+                                    "(path conditions that allow it: %s)" % ", ".join("%s=%s" % (a, x) for a, x in zip(atoms, loose[0])),
                      witness=cfg.witness(p))
         else:
-            ctx.ok("R03.a", f, d, "dispatch is preceded by the store on every path")
+            ctx.ok("R03.a", f, d, "dispatch is preceded by the store on every path, or the assigned object is the very object already held")
     # old/new of the event
     evs = [(n, c) for n in cfg.live_nodes() for c in calls_in(n) if norm(c.func) == "Event"]
     ctx.require(evs, "Event construction in Parameter.__set__ not found")
